@@ -9,7 +9,7 @@
 #include <stdlib.h>
 #include <string.h>
 #include <sys/mman.h>
-#include "../../repo/lib/compress/zstd_compress.c"
+#include "zstd_compress.c"   /* found through -I<repo>/… (tools/build.py), so that ZV_REPO can point at another checkout */
 #include "zvh_common.h"
 
 static unsigned long long rs;
